@@ -1,6 +1,7 @@
 import Pyvsc.Proofs.StmtSound
 import Pyvsc.Proofs.SolveSpec
 import Pyvsc.Props.C18
+import Pyvsc.Proofs.RandSetsInv
 /-!
 # C01 — returned values satisfy every active hard constraint and their declared type
 
@@ -268,5 +269,43 @@ def exσ : Nat → Nat := fun i => match i with | 0 => 3 | 1 => 4 | _ => 0
 
 example : (hardFormulas exΓ exρ exStmts).all (fun f => holds exσ f) = true := by decide +kernel
 example : exStmts.all (fun s => sholds exΓ (rbEnv exΓ exρ exσ) s) = true := by decide +kernel
+
+/-! ### rand sets -/
+
+open Pyvsc.RandSets in
+/-- **The rand sets partition the fields.**  For every list of top-level statements, the live rand
+    sets built for a call have pairwise disjoint field lists: a random field is a solve target of
+    at most one set, so the sets can be solved one after the other without sharing a variable. -/
+theorem randsets_disjoint (tops : List Stmt) (marks : List (Nat × Nat × Nat)) (extra : List (Nat × List Nat)) :
+    ∀ i j a b, i ≠ j → live (build tops marks extra).sets i a → live (build tops marks extra).sets j b →
+      ∀ f, f ∈ a.fields → f ∉ b.fields :=
+  (build_inv tops marks extra).disj
+
+open Pyvsc.RandSets in
+theorem mem_randSets (st : St) (rs : RandSet) (h : rs ∈ randSets st) :
+    (∃ i, live st.sets i rs) ∨ rs = st.noref := by
+  unfold randSets at h
+  rcases List.mem_append.mp h with h | h
+  · left
+    obtain ⟨o, ho, he⟩ := List.mem_filterMap.mp h
+    simp only [id] at he; subst he
+    obtain ⟨i, hi⟩ := List.getElem?_of_mem ho
+    exact ⟨i, hi⟩
+  · right
+    split at h
+    · simp at h
+    · simpa using h
+
+open Pyvsc.RandSets in
+/-- **Every statement stays inside its rand set.**  A statement recorded in a rand set mentions only
+    fields of that set (and a statement in the field-less set mentions none): solving the sets
+    separately solves the whole system. -/
+theorem randsets_closed (tops : List Stmt) (marks : List (Nat × Nat × Nat)) (extra : List (Nat × List Nat)) :
+    ∀ rs ∈ randSets (build tops marks extra), ∀ c ∈ rs.hard, ∀ f ∈ sRefs c.2, f ∈ rs.fields := by
+  intro rs hrs c hc f hf
+  have inv := build_inv tops marks extra
+  rcases mem_randSets _ _ hrs with ⟨i, hi⟩ | rfl
+  · exact inv.closed i rs hi c hc f hf
+  · rw [inv.noref c hc] at hf; simp at hf
 
 end Pyvsc.C01
